@@ -119,3 +119,33 @@ Print Assumptions C15_gc_missing_segment_fails.
 Theorem C15_literal_positive_iff : forall m e, (0 < dec_Q (m, e))%Q <-> (0 < m)%Z.
 Proof. exact dec_Q_pos_iff_mantissa. Qed.
 Print Assumptions C15_literal_positive_iff.
+
+(** every identifier kind: a binary identifier has a name and some record of the accompanying collection agrees
+    with it on EVERY kind it states (name, CAS, IUPAC name, SMILES, InChI, formula) *)
+Theorem C15_binary_ids : forall ids (l : list bin_rec),
+    bin_ids_okb ids l = true ->
+    Forall (fun r => id_resolves ids (b_id1 r) /\ id_resolves ids (b_id2 r)) l.
+Proof. exact bin_ids_okb_sound. Qed.
+Print Assumptions C15_binary_ids.
+
+(** ... hence look-up by ANY kind that is duplicate free in the collection finds a record agreeing with the whole
+    binary identifier *)
+Theorem C15_binary_lookup_any_kind : forall ids (l : list bin_rec) k,
+    bin_ids_okb ids l = true -> kind_nodupb k ids = true ->
+    Forall (fun r => forall b, b = b_id1 r \/ b = b_id2 r -> forall x, get_kind k b = Some x ->
+                     exists p, lookup (get_kind k) x ids = Some p /\ agrees b p) l.
+Proof. exact bin_lookup_any_kind. Qed.
+Print Assumptions C15_binary_lookup_any_kind.
+
+(** per-kind uniqueness in a pure collection: full strength, and with recorded exceptions *)
+Theorem C15_kind_unique : forall k (ids : list ident),
+    kind_uniqb k [] ids = true ->
+    NoDup (keys (get_kind k) ids)
+    /\ forall p x, In p ids -> get_kind k p = Some x -> lookup (get_kind k) x ids = Some p.
+Proof. exact kind_uniqb_lookup. Qed.
+Print Assumptions C15_kind_unique.
+
+Theorem C15_kind_unique_except : forall k exc (ids : list ident),
+    kind_uniqb k exc ids = true -> NoDup (filter (fun v => negb (memb v exc)) (keys (get_kind k) ids)).
+Proof. exact kind_uniqb_sound. Qed.
+Print Assumptions C15_kind_unique_except.
